@@ -615,7 +615,12 @@ def call_ext(interp, ext, node, args, kwargs, st):
                 sym = Poly.atom("sum<" + next(iter(a0.sym.atoms())) + ">")
             elif name == "sum" and ax is None and a0.sym is not None and a0.kind == "arr" and a0.items is None:
                 sym = a0.sym             # sum over the terms of a vectorised expression: the representative term
-            return fresh(dim, kind=kind, tags=frozenset([("reduced", name)]) | keep_batch, sym=sym)
+            rtags = frozenset([("reduced", name)]) | keep_batch
+            if name in ("sum", "nansum") and a0 is not None and "square-of" in a0.tags:
+                rtags = rtags | {"sumsq"}          # sum of squares of one vector: a squared length
+            if name in ("max", "min", "amax", "amin") and a0 is not None:
+                rtags = rtags | (a0.tags & {"sumsq", "norm"})
+            return fresh(dim, kind=kind, tags=rtags, sym=sym)
         if name in DIMLESS_ARG:
             if a0 is not None:
                 interp.emit(st, "trigcall", node, fn=name, arg=a0)
@@ -646,6 +651,13 @@ def call_ext(interp, ext, node, args, kwargs, st):
             return fresh(D0, tags=frozenset(["ones"]))
         if name in ("full", "full_like"):
             v = _arg(args, kwargs, 1, "fill_value", Val())
+            if v.is_number_const() and (v.const == 0 or v.const != v.const or v.const in (float("inf"), float("-inf"))):
+                # filled with 0 / inf / nan: a placeholder of any dimension, columns typed by what is stored later
+                out = fresh(ANY, tags=frozenset(["alloc"]))
+                if name == "full" and a0 is not None and a0.items is not None and len(a0.items) == 2 and a0.items[-1].has_const() \
+                        and isinstance(a0.items[-1].const, int):
+                    out.extra = ("alloc", a0.items[-1].const)
+                return out
             return fresh(v.dim)
         if name in ("linspace",):
             d, c = dim_unify(args[0].dim if args else ANY, args[1].dim if len(args) > 1 else ANY)
